@@ -31,7 +31,14 @@ static int cv_reenter; static var cv_reenter_target; static struct GC* cv_gc;
 static void GC_Rem(var self, var key);
 var destruct(var x) {
   cv_destructs++; if (x == gh_q) cv_destructs_q++; cv_last_destruct = x;
-  if (cv_reenter && x == cv_reenter_target) { cv_reenter = 0; /* an owner (Box) deleting what it owns: del(owned) -> rem(current(GC), owned) */ GC_Rem(cv_gc, gh_q); }
+  if (cv_reenter == 1 && x == cv_reenter_target) { cv_reenter = 0; /* an owner (Box) deleting what it owns: del(owned) -> rem(current(GC), owned) */ GC_Rem(cv_gc, gh_q); }
+  if (cv_reenter == 2 && x == cv_reenter_target) {
+    /* the owner's destructor calls del(owned); its effect on the collector is GC_Rem_Ptr's contract (obligation set rem_ptr): an object pending in
+     * the running sweep is struck from the pending list and finalised and released exactly once; one already finalised is not touched */
+    cv_reenter = 0;
+    int k = (cv_gc->freenum > 0 && FREELIST[0] == gh_q) ? 0 : (cv_gc->freenum > 1 && FREELIST[1] == gh_q) ? 1 : (cv_gc->freenum > 2 && FREELIST[2] == gh_q) ? 2 : (cv_gc->freenum > 3 && FREELIST[3] == gh_q) ? 3 : -1;
+    if (k >= 0) { FREELIST[k] = NULL; cv_destructs++; cv_destructs_q++; cv_deallocs++; cv_deallocs_q++; }
+  }
   return x;
 }
 void dealloc(var x) { cv_deallocs++; if (x == gh_q) cv_deallocs_q++; if (x != cv_last_destruct && !cv_reenter_target) cv_order_bad++; }
@@ -120,14 +127,17 @@ void h_mem_ptr(void) {
 void h_rem_ptr(void) {
   arbitrary_gc();
   gc->freelist = FREELIST; gc->freenum = 2; FREELIST[0] = nondet_bool() ? in_p : CELL(1); FREELIST[1] = nondet_bool() ? in_p : NULL;
-  COVER(NS <= 2 || (old_has_p && old_n >= 2), "removal with other residents"); COVER(!old_has_p, "removal of an unregistered pointer");
+  int pending = (FREELIST[0] == in_p) + (FREELIST[1] == in_p);
+  /* state of a sweep in progress: an object is pending (unlinked, waiting to be finalised) at most once, and then it is no longer registered */
+  __CPROVER_assume(pending <= 1 && !(pending && old_has_p) && in_p != CELL(1));
+  COVER(NS <= 2 || (old_has_p && old_n >= 2), "removal with other residents"); COVER(!old_has_p && !pending, "removal of an unregistered pointer"); COVER(pending, "del of an object pending in a sweep in progress");
   GC_Rem_Ptr(gc, in_p);
   bool r, m; int has = view(gc, NS, in_p, &r, &m);
   ASSERT(!has, "[C17] rem removes the object from the registry");
   has = view(gc, NS, gh_q, &r, &m);
   ASSERT(gh_q == in_p || (has == old_has_q && (!has || (r == old_root_q && m == old_marked_q))), "[C17] rem leaves every other registration unchanged");
   ASSERT(gc->nitems == (size_t)(old_n - old_has_p) && wf_gc(gc, NS, 1), "[C17] the registry invariant and the count hold after a removal (backward shift)");
-  ASSERT(cv_destructs == old_has_p && cv_deallocs == old_has_p && (!old_has_p || cv_last_destruct == in_p) && cv_order_bad == 0, "[C06] an explicitly deleted object is finalised exactly once and then released exactly once; nothing else is");
+  ASSERT(cv_destructs == (old_has_p || pending) && cv_deallocs == cv_destructs && (!cv_destructs || cv_last_destruct == in_p) && cv_order_bad == 0, "[C06] an explicitly deleted object is finalised exactly once and then released exactly once - also one that a sweep in progress has unlinked but not finalised yet; nothing else is");
   ASSERT(FREELIST[0] != in_p && FREELIST[1] != in_p, "[C06] a deleted object is struck from the pending list of a sweep in progress");
 }
 /* ---- C01: marking ---- */
@@ -207,6 +217,17 @@ void h_sweep_owner(void) {
   GC_Sweep(gc);
   ASSERT(cv_destructs_q == 1 && cv_deallocs_q == 1, "[C06] an object owned by a swept owner is finalised exactly once and released exactly once, whichever of the two the sweep reaches first");
   ASSERT(!view(gc, NS, gh_q, NULL, NULL) && !view(gc, NS, in_p, NULL, NULL), "[C17] owner and owned are both gone from the registry");
+}
+/* the same with del cut by GC_Rem_Ptr's contract: owner in_p and owned gh_q are both swept by this sweep, in whichever order the slots give */
+void h_sweep_owner_cut(void) {
+  arbitrary_gc();        /* MARKS=1 */
+  __CPROVER_assume(old_has_p && !old_marked_p && !old_root_p && old_has_q && gh_q != in_p && !old_root_q && !old_marked_q);
+  cv_reenter = 2; cv_reenter_target = in_p; cv_gc = gc;
+  GC_Sweep(gc);
+  ASSERT(cv_destructs_q == 1 && cv_deallocs_q == 1, "[C06] an object deleted by its owner's destructor during the sweep that reclaims both is finalised exactly once and released exactly once, whichever of the two the sweep reaches first");
+  ASSERT(cv_destructs == cv_deallocs && (size_t)cv_destructs == (size_t)old_n - gc->nitems, "[C06] every object removed by the sweep is finalised and released once");
+  ASSERT(!view(gc, NS, gh_q, NULL, NULL) && !view(gc, NS, in_p, NULL, NULL) && wf_gc(gc, NS, 1), "[C17] owner and owned are both gone from the registry and the invariant holds");
+  COVER(1, "sweep with an ownership link returns");
 }
 /* GC_Set / GC_Rem: composition, thresholds, stopped collector */
 void h_gc_set(void) {
